@@ -518,6 +518,24 @@ def run_e2e(ck, rng, n=2000):
     if not os.path.isdir(vlib.BUILD):
         ck.notes.append("end-to-end run on a generated behaviour skipped: %s has no build tree" % vlib.REPO)
         return None
+    # the build tree is shared: wait at most 10 minutes for it (thorough budget), never forever
+    import fcntl
+    import time
+    lock = open(os.path.join(vlib.VERIF, "work", ".ninja.lock"), "w")
+    t0 = time.time()
+    free = False
+    while time.time() - t0 < 600:
+        try:
+            fcntl.flock(lock, fcntl.LOCK_EX | fcntl.LOCK_NB)
+            fcntl.flock(lock, fcntl.LOCK_UN)
+            free = True
+            break
+        except OSError:
+            time.sleep(5)
+    lock.close()
+    if not free:
+        ck.notes.append("end-to-end run on a generated behaviour skipped: the build tree stayed locked by another build for 10 minutes")
+        return None
     ck.ensure_targets("mfront", "TFELMaterial", "TFELMath", "TFELUtilities", "TFELException", "TFELNUMODIS")
     libdirs = set()
     exe = None
